@@ -154,7 +154,6 @@ def run(ctx):
             continue
         lines = open(lf).read().splitlines() if os.path.exists(lf) else []
         # after all contenders are gone the directory must open again
-        final = C.run_impl(["IMG 100 100000 3 100000 1 64 | %s | G" % ""], ctx.wd, "final") if False else None
         toks, problems, stats = analyse(lines)
         for k, v in stats.items():
             total[k] += v
@@ -172,6 +171,54 @@ def run(ctx):
             except OSError:
                 pass
         subprocess.run(["rm", "-rf", d])
+    # ownership across a drop, single process, worker held at its gate: while the first store
+    # has not finished dropping (normal drop or a panic unwinding through its owner) nobody
+    # else obtains the directory; once it has, the next attempt succeeds
+    import p_trace
+    tcases = []
+    for i in range(ctx.scale(24, 150)):
+        cfg = "100000 1073741824 %d 1073741824 1 64" % rnd.choice([2, 3, 100000])
+        items = []
+        for j in range(rnd.randint(1, 6)):
+            items.append("A 1 %d x%02x" % (j, j))
+            if rnd.random() < 0.4:
+                items += ["F 1", rnd.choice(["w 1", "wi"])]
+        items += ["F 1", "w %d" % rnd.choice([0, 1, 2, 3, 50]), rnd.choice(["dropheld", "panicheld", "panicheld"]),
+                  "open " + cfg, "release", "open " + cfg, "G"]
+        tcases.append("TRACE %s | %s" % (cfg, " ; ".join(items)))
+    tlogs = p_trace.run_traces(tcases, ctx.wd, "own")
+    tbad = 0
+    for c, l in zip(tcases, tlogs):
+        ev = [e.strip() for e in l.split(" ; ")]
+        why = None
+        dh = [i for i, e in enumerate(ev) if e.startswith("c dropheld ")]
+        if l in ("hang", "harness-panic") or not dh:
+            ctx.fail("corr", "the harness could not complete the ownership trace: " + l[:100], dict(check="lock", case=c))
+            continue
+        d = dh[0]
+        res = [(i, e) for i, e in enumerate(ev) if i > d and (e == "c opened" or e.startswith("c openerr") or e == "c panic")]
+        rel = [i for i, e in enumerate(ev) if i > d and e == "c dropped"]
+        ctx.count("own_" + ev[d].split()[2])
+        if not res:
+            why = "no open attempt recorded"
+        else:
+            i1, r1 = res[0]
+            if ev[d] == "c dropheld blocked" and r1 == "c opened" and (not rel or i1 < rel[0]):
+                why = "a second store obtained the directory while the first one had not finished dropping (its worker was held with work pending)"
+            late = [e for e in ev[i1:] if e.startswith("w ")]
+            if r1 == "c opened" and late:
+                why = "the directory was handed to a new owner while the previous store's worker still had work; it then changed the directory: " + late[0]
+            if r1 == "c panic":
+                why = "open panicked"
+            if r1.startswith("c openerr") and r1 != "c openerr WouldBlock":
+                why = "a refused open returned %s instead of a lock error" % r1
+            if r1.startswith("c openerr") and (len(res) < 2 or res[1][1] != "c opened"):
+                why = "the owner has been dropped but the next attempt does not succeed: " + (res[1][1] if len(res) > 1 else "no attempt")
+        if why:
+            tbad += 1
+            if tbad <= 3:
+                ctx.fail("oracle", "C13 oracle: " + why, dict(kind="trace", case=c, trace=l[:4000]))
+    ctx.k_checks["oracle-ownership-across-drop"] = (tbad == 0, len(tcases))
     rep = C.run_model(model_cases, ctx.wd, "lock")
     nb = 0
     for c, m, r in zip(model_cases, metas, rep):
@@ -183,7 +230,7 @@ def run(ctx):
     ctx.k_checks["oracle-mutual-exclusion-inert-refusal"] = (bad == 0, total["attempts"])
     for k, v in total.items():
         ctx.count(k, v)
-    ctx.cov["evaluations"] = len(model_cases)
+    ctx.cov["evaluations"] = len(model_cases) + len(tcases)
     ctx.cov["distinct_nontrivial"] = len(set(c for c in model_cases if "-" in c))
     ctx.cov["traces_validated_against_impl"] = len(model_cases) - nb
     ctx.cov["rule"] = "races of 2-16 contenders (1-4 threads in 1-4 processes) looping open (RaftLog or Dump) / append+flush / drop with random pauses; every flock, LOCK-file open and chunk-file system call of every thread is logged with a system-wide monotonic timestamp; non-trivial = at least one refused attempt in the race"
